@@ -5,6 +5,13 @@ HERE = os.path.dirname(os.path.abspath(__file__))
 ALL = ["C%02d" % i for i in range(1, 21)]
 
 CHECKS = {
+ "C03": dict(
+  engine="runner",
+  technique="structural checker I1-I6 over the GIR bundles read back after real `lang` runs on corpus, hand-written and seeded byte-mutated sources in 10 languages; per-file exception attribution by a wrapper around the per-file translation entry, confirmed by unwrapped forked runs and true CLI runs",
+  category="exploration",
+  text="Real `lian lang` runs over projects of 70-110 files (corpora under tests/, 26 hand-written valid programs, byte-level mutants of both with 1-8 delete/insert/transpose/truncate/duplicate/splice edits; single- and multi-language; nested directories; one multi-bundle project in thorough). The bundle is read back and judged: I1 unique ids, I2 disjoint unit ranges, I3 marker pairing/nesting, I4 parent = innermost open block, I5 body-valued attributes name owned blocks and no block is orphaned, I6 executable rows only inside methods/class initialisers, one %unit_init per unit in source order, nothing lost between flatten and bundle. Exceptions are recorded per file and each crash signature is re-observed unwrapped (and by the true CLI for the first 6/40). Quick ~3.2k files / 136k rows, thorough ~43k files / 7-8M rows. Floors on rows, blocks, parent links, attributes, order comparisons, mutants that still emit GIR, CLI cross-checks.",
+  note="Says nothing about inputs outside corpora + hand-written programs + the mutator space. --strict-parse-mode, cpp and csharp (empty grammar files) are excluded. A SystemExit with a diagnostic is a handled exit. The invariants are stated as the healthy tree realises them (owner of a block = the statement row preceding it at the same level; derived body-valued columns; class-initialiser blocks named by init/static_init). lian's 1000-unit cap bounds project size.",
+  design="DESIGN.md §C03"),
  "C02": dict(
   engine="girvm",
   technique="differential execution across frontends: one core program rendered into 7 languages, each rendering lowered by a real `lang` run and executed by the reference GIR executor under one common semantics, compared with the core reference interpreter; renderers validated at run time by CPython, node, javac/java and gcc; attribution by named compensation switches",
